@@ -150,25 +150,44 @@ type callFrameStack interface {
 
 	IsFull() bool
 	IsEmpty() bool
+	// SetExtra lets the stack exceed its size by callStackExtra frames, or ends that, and returns the previous setting.
+	SetExtra(extra bool) bool
 
 	FreeAll()
 }
 
+// callStackExtra is the room beyond the configured size that a stack keeps for a message handler. The handler is
+// called at the point of the error, which for a call-stack overflow is a full stack (luaD_growCI in ldo.c also lets
+// the handler use CallInfo entries above LUAI_MAXCALLS).
+const callStackExtra = 16
+
 type fixedCallFrameStack struct {
 	array []callFrame
 	sp    int
+	extra bool
 }
 
 func newFixedCallFrameStack(size int) callFrameStack {
 	return &fixedCallFrameStack{
-		array: make([]callFrame, size),
+		array: make([]callFrame, size+callStackExtra),
 		sp:    0,
 	}
 }
 
 func (cs *fixedCallFrameStack) IsEmpty() bool { return cs.sp == 0 }
 
-func (cs *fixedCallFrameStack) IsFull() bool { return cs.sp == len(cs.array) }
+func (cs *fixedCallFrameStack) IsFull() bool {
+	if cs.extra {
+		return cs.sp >= len(cs.array)
+	}
+	return cs.sp >= len(cs.array)-callStackExtra
+}
+
+func (cs *fixedCallFrameStack) SetExtra(extra bool) bool {
+	old := cs.extra
+	cs.extra = extra
+	return old
+}
 
 func (cs *fixedCallFrameStack) Clear() {
 	cs.sp = 0
@@ -226,6 +245,7 @@ type autoGrowingCallFrameStack struct {
 	segSp uint8
 	// maxSize is the number of frames the stack may hold; the last segment need not be used completely.
 	maxSize int
+	extra   bool
 }
 
 var segmentPool sync.Pool
@@ -247,7 +267,7 @@ func freeCallFrameStackSegment(seg *callFrameStackSegment) {
 // FramesPerSegment.
 func newAutoGrowingCallFrameStack(maxSize int) callFrameStack {
 	cs := &autoGrowingCallFrameStack{
-		segments: make([]*callFrameStackSegment, (maxSize+(FramesPerSegment-1))/FramesPerSegment),
+		segments: make([]*callFrameStackSegment, (maxSize+callStackExtra+(FramesPerSegment-1))/FramesPerSegment),
 		segIdx:   0,
 		maxSize:  maxSize,
 	}
@@ -261,7 +281,16 @@ func (cs *autoGrowingCallFrameStack) IsEmpty() bool {
 
 // IsFull returns true if the stack cannot receive any more stack pushes without overflowing
 func (cs *autoGrowingCallFrameStack) IsFull() bool {
+	if cs.extra {
+		return cs.Sp() >= cs.maxSize+callStackExtra
+	}
 	return cs.Sp() >= cs.maxSize
+}
+
+func (cs *autoGrowingCallFrameStack) SetExtra(extra bool) bool {
+	old := cs.extra
+	cs.extra = extra
+	return old
 }
 
 func (cs *autoGrowingCallFrameStack) Clear() {
@@ -1867,8 +1896,11 @@ func (ls *LState) PCall(nargs, nret int, errfunc *LFunction) (err error) {
 			}
 			if errfunc != nil {
 				ls.Panic = panicWithoutTraceback
+				// the frames of the error are still there; after a call-stack overflow they fill the stack
+				oldextra := ls.stack.SetExtra(true)
 				defer func() {
 					ls.Panic = oldpanic
+					ls.stack.SetExtra(oldextra)
 					rcv := recover()
 					if rcv != nil {
 						if _, ok := rcv.(*ApiError); !ok {
